@@ -25,6 +25,8 @@ type Connections = HashMap<forwarder::UdpDatagramMeta, Connection>;
 struct MultiplexerShared {
     connections: Mutex<Connections>,
     context: Arc<core::Context>,
+    /// Makes the source build its list of sockets to wait for anew
+    wake_tx: sync::mpsc::Sender<()>,
 }
 
 struct MultiplexerSource {
@@ -53,11 +55,12 @@ pub(crate) fn make_multiplexer(
     context: Arc<core::Context>,
     id: log_utils::IdChain<u64>,
 ) -> io::Result<UdpMultiplexer> {
+    let (wake_tx, wake_rx) = sync::mpsc::channel(1);
     let shared = Arc::new(MultiplexerShared {
         connections: Mutex::new(Default::default()),
         context,
+        wake_tx: wake_tx.clone(),
     });
-    let (wake_tx, wake_rx) = sync::mpsc::channel(1);
 
     Ok((
         shared.clone(),
@@ -190,7 +193,17 @@ impl forwarder::UdpDatagramPipeShared for MultiplexerShared {
     }
 
     fn on_connection_closed(&self, meta: &forwarder::UdpDatagramMeta) {
-        self.connections.lock().unwrap().remove(&meta.reversed());
+        if self
+            .connections
+            .lock()
+            .unwrap()
+            .remove(&meta.reversed())
+            .is_some()
+        {
+            // The source may be waiting on a future that shares this socket. Unless it is woken
+            // the descriptor stays open until something else happens on the multiplexer.
+            let _ = self.wake_tx.try_send(());
+        }
     }
 }
 
